@@ -128,6 +128,10 @@ def main(tier):
             ("cyclic", "a = [1]; &cc = 2; &cc.arr = [{'k': [a]}]; a.push({'c': [&cc]}); [0, a]"),
             ("acyclic", "zz = {'k': 1}; &cc = this.x; &cc.x = zz; [&cc, zz, &cc]"), ("acyclic", "&c1 = 1; &c2 = 2; &c2.o = &c1; [&c1, &c2, &c1, {'k': &c2}]"),
             ("acyclic", "a = [1]; &cc = 2; &cc.p = a; &cc.q = a; [a, &cc, a]"),
+            # values that JSON cannot represent (infinities, NaN), alone and inside every kind of container: an error, never a document
+            ("nonfinite", "big = 2.0 ** 5000; big"), ("nonfinite", "big = 2.0 ** 5000; [1, big - big]"), ("nonfinite", "{'k': 2.0 ** 5000}"),
+            ("nonfinite", "x = 0.0 - 2.0 ** 5000; [x]"), ("nonfinite", "big = 2.0 ** 5000; &c = 1; &c.a = big; &c"), ("nonfinite", "big = 2.0 ** 5000; [[[{'a': [big]}]]]"),
+            ("nonfinite", "n = 2.0 ** 5000 - 2.0 ** 5000; {'x': {'y': n}}"),
             ("acyclic", "a = [1]; b = [a]; cc = [b, b]; cc"), ("acyclic", "a = [1]; [a, a, [a]]"), ("acyclic", "a = {'k': 1}; [a, {'m': a}, a]"),
             ("acyclic", "a = [1]; b = [a, a]; cc = [b, a, b]; {'x': cc, 'y': cc}"), ("acyclic", "e = []; [e, e]"),
         ]
@@ -138,6 +142,8 @@ def main(tier):
                 run.violation("cycle:crash", {"program": p, "implementation": g[:200], "expected": "an error" if kind == "cyclic" else "a JSON document"})
             elif kind == "cyclic" and not g.startswith("encerr"):
                 run.violation("cycle:not-detected", {"program": p, "implementation": g[:200]})
+            elif kind == "nonfinite" and not g.startswith("encerr"):
+                run.violation("unrepresentable-value-serialised-without-error", {"program": p, "implementation": g[:300]})
             elif kind == "acyclic" and not g.startswith("ok "):
                 msg = unhx(g.split()[1]).decode("utf-8", "replace") if len(g.split()) > 1 else g
                 run.violation("acyclic-sharing-rejected", {"program": p, "implementation": msg[:200]})
@@ -150,6 +156,23 @@ def main(tier):
                 live = [nm for nm in names if any(s.startswith((f"{nm} =", f"func {nm}(", f"&{nm} ")) for s in st[:cut])]
                 suf = gen_suffix(r, st[:cut], live)
                 seed = f"{r.getrandbits(128):032x}"
+                lines.append(f"snap L100000 {seed} {hx(pre)} {hx(suf)}")
+                meta.append((pre, suf, seed))
+        # directed histories: the first use of a restored function / computed value FAILS at run time, later uses succeed
+        DIRECTED = [
+            ("func share(n) { return 120 / n }; pool = [3, 0]", ["share(pool[1])", "share(pool[0])", "share(pool[0]) + share(3)"]),
+            ("&cq = 120 / z; z = 0", ["cq", "z = 4", "cq", "cq + cq"]),
+            ("func f(a) { a.len() + 1 }", ["f(5)", "f([1,2])", "f('ab')"]),
+            ("func f(a) { if a > 2 { return nosuch.x }; a * 2 }", ["f(3)", "f(1)", "f(2)"]),
+            ("&cq = [1,2][i]; i = 5", ["cq", "i = 1", "cq"]),
+            ("func deep(n) { n > 0 ? deep(n - 1) + 1 : 1 / z }; z = 0", ["deep(2)", "z = 1", "deep(2)"]),
+            ("func f() { 2d6 + nosuch() }; func g() { 2d6 }", ["f()", "g()", "f()", "g() + g()"]),
+            ("&cq = `{1/z}`; z = 0", ["cq", "z = 2", "cq"]),
+        ]
+        for pre, sufs in DIRECTED:
+            for _ in range(2):
+                seed = f"{r.getrandbits(128):032x}"
+                suf = "\n---\n".join(sufs)
                 lines.append(f"snap L100000 {seed} {hx(pre)} {hx(suf)}")
                 meta.append((pre, suf, seed))
         out = run.go_only("snapshot", lines, go_timeout=600)
